@@ -381,8 +381,25 @@ def default_ignore():
         return list(FALLBACK_IGNORE)
 
 
+def path_match(abs_path: str, pattern: str) -> bool:
+    """The documented semantics of `Path.match` (POSIX, Python 3.12), written out independently: the pattern is split
+    into components (empty and "." components vanish); a relative pattern is compared, component by component with
+    case-sensitive fnmatch, against the *trailing* components of the path — a pattern with a directory part is not
+    compared with the file name alone —; an absolute pattern must cover the whole path."""
+    import fnmatch
+    comps = [c for c in pattern.split("/") if c not in ("", ".")]
+    parts = [c for c in abs_path.split("/") if c]
+    if not comps:
+        raise ValueError("empty pattern")
+    if pattern.startswith("/"):
+        return len(comps) == len(parts) and all(fnmatch.fnmatchcase(a, b) for a, b in zip(parts, comps))
+    if len(comps) > len(parts):
+        return False
+    return all(fnmatch.fnmatchcase(a, b) for a, b in zip(parts[len(parts) - len(comps):], comps))
+
+
 def matches(abs_path: str, pats) -> bool:
-    return any(PurePosixPath(abs_path).match(p) for p in pats)
+    return any(path_match(abs_path, p) for p in pats)
 
 
 def oracle_files(case, root: str):
@@ -928,8 +945,18 @@ def random_case(rng, cid, focus=None):
                 "exp-1", "exp?1", "*-1", "_*", "task_run*", "v?2/*"]
         ignore = [rng.choice(pool) for _ in range(rng.choice([1, 1, 2]))]
     task_files = None
-    if rng.random() < 0.2:
+    r_tf = rng.random()
+    if r_tf < 0.15:
         task_files = rng.choice([["*.py"], ["task_*.py", "*_tasks.py"], ["*_tasks.py"], ["t*.py"], ["task_x.py"], ["task_*"]])
+    elif r_tf < 0.33:
+        # patterns with a directory part (matched against the trailing path components), `*` in directory position,
+        # case variants and patterns that match nothing
+        some_dir = (rng.choice(dirs).split("/")[-1] if dirs else "sub")
+        pool = [["task_*.py", f"{some_dir}/*.py"], [f"{some_dir}/*.py"], ["*/task_*.py"], [f"{some_dir}/t*.py", "task_x.py"],
+                [f"*/{some_dir}/*.py"], ["sub/*/task_*.py", "task_*.py"], [f"{ROOTNAME}/*.py"], [f"{ROOTNAME}/*/task_*.py"],
+                ["TASK_*.py"], ["Task_*.py", "task_*.py"], ["nomatch_*.py"], [f"{some_dir.upper()}/*.py", "task_y.py"],
+                ["*/*.py"], [f"{some_dir}/mod_*.py", f"{some_dir}/x_*.py"], ["./task_*.py"], [f"{some_dir}/"]]
+        task_files = rng.choice(pool)
     if task_files is not None and "helper_a.py" in files and matches("/p/helper_a.py", task_files):
         # the helper is executed by the harness' own loader; it must not also be a task module (it would run twice)
         del files["helper_a.py"]
@@ -1152,7 +1179,7 @@ def pmatch_campaign(ctx, n_random):
                     cases.append(("/".join(path), "/".join(pat)))
     if not ctx.thorough:
         cases = [c for i, c in enumerate(cases) if i % 4 == ctx.seed % 4]
-    extra = ["/a/*", "/*/b", "/a/b", "a/", "./a", "*/", "/a"]
+    extra = ["/a/*", "/*/b", "/a/b", "a/", "./a", "*/", "/a", "a/*", "*/b", "b/*/b", "A/b", "a/B"]
     cases += [(p, q) for p in ("a/b", "a", "b/a/b") for q in extra]
     rng = ctx.rng
     for _ in range(n_random):
@@ -1171,6 +1198,12 @@ def pmatch_campaign(ctx, n_random):
             continue
         ctx.case(["pmatch", p, q], want, {"path": p, "pattern": q, "match": want})
         ctx.dist["pmatch"] += 1
+        try:
+            own = path_match("/" + p, q)
+        except ValueError:
+            own = None
+        if own is not None and own != want:
+            ctx.disagreement(f"pmatch-oracle-differs: PurePosixPath('/{p}').match({q!r}) = {want}, harness path_match {own}", {"kind": "pmatch", "path": p, "pat": q})
         if ans is not None and ans != ("1" if want else "0"):
             ctx.disagreement(f"pmatch-differs: PurePosixPath('/{p}').match({q!r}) = {want}, model {ans}", {"kind": "pmatch", "path": p, "pat": q})
 
